@@ -1,7 +1,7 @@
 (* Extraction of the executable models to OCaml (ExtrOcamlBasic only: bool, option, unit,
    list, prod, sumbool, sumor are mapped to OCaml's; N / positive / comparison stay Coq
    data types; no Extract Constant). *)
-From SV Require Import Origin Iter Eval.
+From SV Require Import Origin Iter Eval Peg.
 Require Extraction.
 Require Import ExtrOcamlBasic.
 Extraction Language OCaml.
@@ -9,5 +9,6 @@ Set Extraction KeepSingleton.
 Separate Extraction Iter.iter_run Iter.ev_run Iter.iter_event Iter.iter_new Iter.node_into_iter
   Iter.unwrap_node Iter.get_str_range Iter.get_str_trim_range Tree.size Tree.preorder Tree.events
   Origin.run_ops Origin.pt_origin Origin.pt_push Origin.pt_merge Origin.pt_new
+  Peg.memo_insert Peg.map_get Peg.mkPst
   Eval.preprocess Eval.pp_str Eval.split_text Eval.seed_defines Eval.mkCfg
   BinNat.N.of_nat BinNat.N.to_nat BinNat.N.add BinNat.N.mul BinNat.N.eqb BinNat.N.ltb BinNat.N.succ.
